@@ -134,11 +134,13 @@ func init() {
 				return []*engine.Scenario{
 					mk("c05-empty", [][]world.Op{nil}, []int{4, 2, 1, 2, 0}, 7),
 					mk("c05-staked", [][]world.Op{staked, deep}, []int{3, 2, 1, 2, 0}, 6),
+					unionScenarioDepth("C05", "c05-union", tier, c05Step, nil, 5),
 				}
 			}
 			return []*engine.Scenario{
 				mk("c05-empty", [][]world.Op{nil}, []int{3, 1, 1, 2, 0}, 4),
 				mk("c05-staked", [][]world.Op{staked, deep}, []int{2, 1, 1, 2, 0}, 3),
+				unionScenarioDepth("C05", "c05-union", tier, c05Step, nil, 3),
 			}
 		},
 		Assumptions: []string{
